@@ -112,6 +112,15 @@ func check(c urlCase) (kind, detail string) {
 	if err != nil || req.URL.String() != first {
 		return "second-request-differs", fmt.Sprintf("the same request built twice on one client: %q then %q (%v)", first, req.URL.String(), err)
 	}
+	// a tunnelling threshold the query stays below changes nothing
+	plain := cl
+	cl = &restli.Client{Client: http.DefaultClient, HostnameResolver: plain.HostnameResolver, QueryTunnellingThreshold: 1000000}
+	build()
+	if err != nil || req.URL.String() != first {
+		return "threshold-changes-url", fmt.Sprintf("with a tunnelling threshold of 10^6 (query %d bytes) the URL is %q, without %q (%v)", len(c.Query), req.URL.String(), first, err)
+	}
+	cl = plain
+	build()
 	u := req.URL
 	if u.Scheme != c.Scheme || u.Host != c.Host {
 		return "scheme-host", fmt.Sprintf("URL %q: scheme/host %q %q, resolver gave %q %q", u.String(), u.Scheme, u.Host, c.Scheme, c.Host)
